@@ -726,7 +726,10 @@ fn exec(case: &mut Case, dir: &PathBuf, line: &str, out: &mut Out) -> (String, S
                                     }
                                     // an address known to one side only keeps its counters
                                     let in_mem = mem_before.get(p).map(|l| l.iter().any(|x| x.ma == a.ma)).unwrap_or(false);
-                                    if !in_mem {
+                                    // (a crafted file may list one address twice under a peer; `sync` then folds the
+                                    // duplicates together, so "its counters" is only defined for addresses listed once)
+                                    let listed_once = l.iter().filter(|x| x.ma == a.ma).count() == 1;
+                                    if !in_mem && listed_once {
                                         let got = after.get(p).and_then(|l| l.iter().find(|x| x.ma == a.ma));
                                         if got.map(|g| (g.succ, g.fail, g.seen)) != Some((a.succ, a.fail, a.seen)) {
                                             o.fail("merge-keeps-file", format!("peer {p} address {} known only to the file changed its counters in the merge", a.ma));
